@@ -189,6 +189,10 @@ def run(ctx):
     recs = []
     for r in results:
         if "harness_exception" in r:
+            lf = core.library_failure(r)
+            if lf is not None:
+                ctx.violation(lf)
+                continue
             raise tlc.MachineryError("worker failed: %s\n%s" % (r["harness_exception"], r["tb"]))
         for v in r["viol"]:
             ctx.violation(v)
@@ -209,6 +213,10 @@ def run(ctx):
     u = core.pmap(utf8_worker, [ctx.seed + k for k in range(8)], procs=8, chunksize=1)
     for r in u:
         if "harness_exception" in r:
+            lf = core.library_failure(r)
+            if lf is not None:
+                ctx.violation(lf)
+                continue
             raise tlc.MachineryError("worker failed: %s" % r)
         ctx.count(r["n"])
         for v in r["viol"]:
